@@ -81,6 +81,9 @@ namespace GeographicLib {
       real H = hypot(h == 0 ? 1 : Z, R);
       sphi = (h == 0 ? 1 : Z) / H;
       cphi = R / H;
+      if (H < numeric_limits<real>::min() / numeric_limits<real>::epsilon())
+        // A subnormal H is inaccurate, so sphi^2 + cphi^2 != 1
+        Math::norm(sphi, cphi);
       h -= _a;
     } else {
       // Treat prolate spheroids by swapping R and Z here and by switching
